@@ -51,6 +51,7 @@ def run_property(pid, tier, seed, write_baseline=False):
     baseline = load_json('baseline_obligations.json', {}).get(pid)
     findings = known_findings(pid)
     open_keys = {f['key']: f for f in findings if f.get('status') == 'open'}
+    known_counts = {}
     reported_findings = []
 
     # ---- canaries and conformance: checker faults, never verdicts
@@ -101,8 +102,17 @@ def run_property(pid, tier, seed, write_baseline=False):
         for fl in b.failures:
             key = fl.get('key', '')
             if key and key in open_keys:
-                reported_findings.append(key)
-                continue
+                # an open finding names a class of failing inputs; where the monitor counts the failing evaluations of the
+                # class, more of them than were recorded for this tier is a different violation and is reported
+                m = re.search(r'(\d+) failing', fl.get('what', ''))
+                cur = int(m.group(1)) if m else None
+                rec = (open_keys[key].get('counts') or {}).get(tier)
+                known_counts[key] = cur
+                if cur is None or rec is None or cur <= rec:
+                    reported_findings.append(key)
+                    continue
+                fl = dict(fl, what=f'{cur} failing evaluations under the key of known finding {open_keys[key]["id"]} where '
+                                   f'{rec} are recorded: ' + fl.get('what', ''))
             sig = (b.name, key or fl.get('what', '')[:80])
             if sig in seen_viol:
                 continue
@@ -183,6 +193,7 @@ def run_property(pid, tier, seed, write_baseline=False):
         'rule': '; '.join(f'{b.name}: {b.rule}' for b in res.bounded if b.rule)[:3000],
         'samples': jsonable(samples)[:24],
         'known_findings_reported': sorted(set(reported_findings)),
+        'known_finding_counts': known_counts,
         'canaries': [{'name': n, 'caught': c} for n, c in res.canaries],
         'conformance': res.conformance,
         'explanation': explanation or 'see DESIGN.md',
